@@ -412,3 +412,11 @@ package corebgp
 //@   loop#0 invariant [state] fsmSelf(f) && readerFields(f) && stateReq(f, t.to) && t.to <= 6 && t.from <= 6 && (t.to == 5 ==> t.from == 4) && !chanClosed(f.doneCh) && (t.to == 0 || t.to == 1 ==> !dialPending(f))
 //@   modifies f.conn, f.remoteID, f.holdTime, f.keepAliveInterval, f.keepAliveTimer, f.holdTimer, f.connectRetryTimer, f.dialResultCh, f.cancelDialFn, f.closeReaderCh, f.closeReaderOnce, f.readerDoneCh, f.readerErrCh, f.readerMsgCh, nwrites, lastKind, lastCode, lastSub, lastDataLen, lastData0, connClosed, readerRunning(f), dialPending(f), chanClosed, onceDone, timerOn, timerDur, timerMayHold
 //@   ensures [everything_stopped] f.conn == nil && !readerRunning(f) && !dialPending(f) && chanClosed(f.doneCh)
+
+// The dial goroutine: sends its result(s) on the channel it was started with and
+// closes the channel of the FSM when it returns. (A failed ResolveTCPAddr of a
+// literal address would send twice; unreachable for the literal IPs corebgp
+// builds the address from: not claimed, see DESIGN section 8 "latent".)
+//@ func fsm.dialPeer$1
+//@   requires f != nil && f.peer != nil && dialResultCh != nil && f.dialResultCh != nil && !chanClosed(f.dialResultCh)
+//@   modifies chanClosed(f.dialResultCh)
